@@ -884,6 +884,11 @@ class Fxp():
             if val_dtype == object:       
                 # convert each element to int
                 new_val = np.array(list(map(int, new_val.flatten()))).reshape(new_val.shape).astype(val_dtype)
+
+                # words below 64 bits are stored as machine integers, also when the input needed
+                # Python integers: object storage would skip rounding in later conversions
+                if self.n_word < _n_word_max_:
+                    new_val = new_val.astype(np.int64 if self.signed else np.uint64)
             
             if index is not None:
                 self.val[index] = new_val
